@@ -47,6 +47,8 @@ type loopInfo struct {
 	phiH      map[*ssa.Phi]*Val // havocked header values
 	entryVals map[*ssa.Phi]*Val
 	backInfo  []backEdge
+	outerSl   []ssa.Value
+	outerB    []ssa.Value
 }
 
 type backEdge struct {
